@@ -6,6 +6,7 @@ package rpckit
 import (
 	"fmt"
 	"math/big"
+	"strconv"
 	"strings"
 )
 
@@ -73,6 +74,12 @@ func idEqual(want V, got any) (bool, bool) { // (equal, equalAfterRounding)
 		}
 		if w.Cmp(gr) == 0 {
 			return true, false
+		}
+		if !w.IsInt() {
+			// a decimal fraction: the same float64
+			a, e1 := strconv.ParseFloat(want.N, 64)
+			b, e2 := strconv.ParseFloat(string(g), 64)
+			return false, e1 == nil && e2 == nil && a == b
 		}
 		// the same float64 (Go prints the shortest digits that identify it, not its exact value)
 		if w.IsInt() && gr.IsInt() && f64Round(w.Num()).Cmp(f64Round(gr.Num())) == 0 {
@@ -298,10 +305,12 @@ func checkMsg(e Expect, msg any) []defect {
 		add("error-without-id", "a response must carry an id member (null when the request's id could not be read)")
 	case unidentified:
 	case e.HasID:
+		// a numeric id comes back as a NUMBER VALUE: exactly up to 2^53, as the float64 nearest to it beyond (the servers
+		// decode it into a float64 and print that) — never with another sign or magnitude
 		eq, rounded := idEqual(e.ID, id)
-		if rounded {
+		if rounded && e.ID.K == 'n' && within53(e.ID.N) {
 			add("id-echo-rounded", fmt.Sprintf("request id %s, answer id %v", e.ID.Raw(), id))
-		} else if !eq {
+		} else if !eq && !rounded {
 			add("id-mismatch", fmt.Sprintf("request id %s, answer id %v", e.ID.Raw(), id))
 		}
 	case !e.Req:
